@@ -21,9 +21,24 @@ def engine_history(rnd, tag):
         elif r < 0.4:
             ops.append(('query', 'retract', rnd.choice([('all',), ('stop', 1)]), [[Sym('f'), 'shared', [Sym('v'), 5]]]))
         elif r < 0.5:
-            ops.append(('regpy', 'shared', 1, [(0, [[Sym('a'), tag + 'py']])], None, 'explicit', False))
+            if rnd.random() < 0.5:
+                ops.append(('regpy', 'shared', 1, [(0, [[Sym('a'), tag + 'py']])], None, 'explicit', False))
+            else:
+                # the arity is taken from the function's own parameters: another function under the same
+                # name, with another number of parameters, may be registered on another engine
+                ar = rnd.randint(1, 2)
+                ops.append(('regpy', 'shared', ar, [(0, [[Sym('a'), tag + 'py']] + [[Sym('a'), 'x']] * (ar - 1))], None, 'inferred', False))
+                ops.append(('query', 'shared', ('all',), [[Sym('v'), 8], [Sym('v'), 9]]))
         elif r < 0.55:
             ops.append(('clear',))
+        elif r < 0.62:
+            # iterators of the Python API that are created in one step and consumed in a later one
+            t = rnd.choice([[Sym('a'), tag], [Sym('i'), 7], [Sym('f'), 'f', [Sym('a'), tag]]])
+            kind = rnd.choice(['=', '=', 'assertz', 'retractall'])
+            if kind == '=':
+                ops.append(('apiq', '=', [t, rnd.choice([t, [Sym('v'), 7], [Sym('a'), 'other']])]))
+            else:
+                ops.append(('apiq', kind, [[Sym('f'), 'shared', t]]))
         elif r < 0.65:
             ops.append(('load', rnd.choice(['overwrite', 'combine']), c08.script(rnd, tag)))
         else:
@@ -49,6 +64,14 @@ class Stepper:
 
     def step(self):
         op = self.ops[self.i]
+        if op[0] == 'apiq':
+            if self.cur is None:
+                self.cur = self.eng.api_make(op[1], op[2])      # created now ...
+                return
+            self.results.append(self.eng.api_iter(op[1], op[2], self.cur, count=False))     # ... consumed in a later step
+            self.cur = None
+            self.i += 1
+            return
         if op[0] != 'query':
             self.results.append(R.run_op(self.eng, op))
             self.i += 1
@@ -164,11 +187,43 @@ def case(rep, drv, rnd, i, tier):
                                mode=mode, op_index=j, op=scen.ops_json([hists[k][j]])[0], interleaved=sx(g[j]), alone=sx(s[j])))
             return
     rep.nontriv(sx([len(h) for h in hists]) + sx(solo[0][-2:]))
+    if not api_iterators(rep, rnd, payload):
+        return
     # same instance: several suspended pure queries over disjoint variables
     if i % 2 == 0:
         same_instance(rep, rnd, payload)
     if i < 2:
         rep.sample({'engines': n_eng, 'ops_engine0': [scen.norm(list(o)) if o[0] != 'load' else 'load' for o in hists[0][:8]]})
+
+
+def api_iterators(rep, rnd, payload):
+    """iterators of the Python API (unify(), assertz/asserta/retractall as methods) created on several
+    engines one after the other and consumed afterwards, in any order: each gives what it gives alone"""
+    def make(eng, tag):
+        kind = rnd.choice(['=', '=', '=', 'assertz', 'asserta', 'retractall'])
+        t = rnd.choice([[Sym('a'), tag], [Sym('i'), rnd.randrange(3)], [Sym('f'), 'f', [Sym('a'), tag], [Sym('v'), 3]]])
+        if kind == '=':
+            return kind, [t, rnd.choice([t, t, [Sym('v'), 4], [Sym('a'), 'other']])]
+        return kind, [[Sym('f'), 'seen', t]]
+    n = rnd.choice([2, 2, 3])
+    specs = [make(None, 'e%d' % k) for k in range(n)]
+    alone = []
+    for kind, terms in specs:
+        alone.append(sx(R.RealEngine().api_iter(kind, terms)[:3]))
+    engs = [R.RealEngine() for _ in range(n)]
+    made = [e.api_make(kind, terms) for e, (kind, terms) in zip(engs, specs)]       # all created first
+    order = list(range(n))
+    rnd.shuffle(order)
+    got = [None] * n
+    for k in order:                                                               # then consumed
+        got[k] = sx(engs[k].api_iter(specs[k][0], specs[k][1], made[k])[:3])
+    rep.count('api-iterators-created-then-consumed')
+    if got != alone:
+        rep.disagreements_checked += 1
+        rep.violation(dict(payload, kind='an iterator of the Python API gives different answers when iterators of other engines are created in between',
+                           iterators=[[k, sx(t)] for k, t in specs], order=order, interleaved=got, alone=alone))
+        return False
+    return True
 
 
 def same_instance(rep, rnd, payload):
